@@ -2,6 +2,7 @@ package main
 
 import (
 	"fmt"
+	"go/token"
 	"go/types"
 	"regexp"
 	"sort"
@@ -256,7 +257,12 @@ func (P *Prog) ifEdgesFor(fn *ssa.Function, re string) []struct {
 			continue
 		}
 		for i := 0; i < 2; i++ {
-			for _, a := range P.condAtoms(ifi.Cond, ifi, i == 0, 0) {
+			as := P.condAtoms(ifi.Cond, ifi, i == 0, 0)
+			for _, a := range append([]Atom{}, as...) {
+				// a test delegated to a boolean helper of the repo counts as the helper's own condition
+				as = append(as, P.boolEquiv(a)...)
+			}
+			for _, a := range as {
 				if rx.MatchString(a.Key()) {
 					out = append(out, struct {
 						B *ssa.BasicBlock
@@ -273,7 +279,7 @@ func (P *Prog) ifEdgesFor(fn *ssa.Function, re string) []struct {
 // mustFollowEdge: on every path from each edge establishing atom `re` to a Return (or to an
 // instruction matching until), an instruction matching pred is executed. Missing edge = violation.
 func (r *Run) mustFollowEdge(rule, key string, fn *ssa.Function, re string, pred, until func(ssa.Instruction) bool, what string) bool {
-	edges := r.P.ifEdgesFor(fn, re)
+	edges := append(r.P.ifEdgesFor(fn, re), r.P.phiValueEdges(fn, re)...)
 	if len(edges) == 0 {
 		r.Viol(rule, key, r.P.Pos(fn.Pos()), "no branch establishing "+re+" exists in "+short(fn.String())+" any more")
 		return false
@@ -281,7 +287,7 @@ func (r *Run) mustFollowEdge(rule, key string, fn *ssa.Function, re string, pred
 	ok := true
 	for _, e := range edges {
 		tgt := func(in ssa.Instruction) bool { return isReturn(in) || (until != nil && until(in)) }
-		reach, w, path := ReachFromBlock(e.B.Succs[e.I], tgt, pred, nil)
+		reach, w, path := ReachFromEdge(e.B, e.I, tgt, pred, nil)
 		if reach {
 			ok = false
 			r.Viol(rule, key, r.P.InstrPos(w), "a path from the branch «"+re+"» reaches "+r.P.InstrPos(w)+" without "+what+": "+r.P.blockPathString(path))
@@ -340,4 +346,69 @@ func (P *Prog) PointeeAt(v ssa.Value, at ssa.Instruction) *Term {
 		return tb.loadLocal(al, nil, at)
 	}
 	return tb.term(v, at)
+}
+
+// phiValueEdges: the condition was first stored in a boolean (`c := a || b; if c {`): the If tests a Phi whose
+// incoming value on some edge is the expression establishing the atom. The returned edge is the If's successor
+// taken when that incoming value has the polarity that establishes the atom — a superset of the paths on which the
+// atom holds, which is what a must-follow obligation needs.
+func (P *Prog) phiValueEdges(fn *ssa.Function, re string) []struct {
+	B *ssa.BasicBlock
+	I int
+} {
+	rx := regexp.MustCompile(re)
+	var out []struct {
+		B *ssa.BasicBlock
+		I int
+	}
+	for _, b := range fn.Blocks {
+		if len(b.Instrs) == 0 || len(b.Succs) != 2 {
+			continue
+		}
+		ifi, ok := b.Instrs[len(b.Instrs)-1].(*ssa.If)
+		if !ok {
+			continue
+		}
+		c := ifi.Cond
+		neg := false
+		for {
+			if u, ok := c.(*ssa.UnOp); ok && u.Op == token.NOT {
+				neg = !neg
+				c = u.X
+				continue
+			}
+			break
+		}
+		phi, ok := c.(*ssa.Phi)
+		if !ok {
+			continue
+		}
+		seen := map[int]bool{}
+		for _, v := range phi.Edges {
+			if _, isC := v.(*ssa.Const); isC {
+				continue
+			}
+			for _, pol := range []bool{true, false} {
+				for _, a := range P.condAtoms(v, ifi, pol, 0) {
+					if !rx.MatchString(a.Key()) {
+						continue
+					}
+					// v == pol establishes the atom; phi == pol; the If takes succ 0 when cond is true
+					condTrue := pol != neg
+					i := 1
+					if condTrue {
+						i = 0
+					}
+					if !seen[i] {
+						seen[i] = true
+						out = append(out, struct {
+							B *ssa.BasicBlock
+							I int
+						}{b, i})
+					}
+				}
+			}
+		}
+	}
+	return out
 }
